@@ -38,3 +38,68 @@ def Fed (f : Front) (expected : List Rec) : Prop :=
   ((f.queue.filter (fun e => e.1 == f.version)).map (·.2)) <+: expected
 
 end KV.C02
+
+namespace KV.C02
+
+/-! ### the front as a transition system with its fetchers
+
+`reader.go start`: under `r.mutex` cancel the previous fetchers, `r.version++`, spawn a fetcher that captured the new
+version (since commit 56d48de the tag is read while the lock is held) and the start offset.  A fetcher only ever
+enqueues, in order, the stored records at or above its start offset (`iterated_fetch`), each tagged with its own
+version; cancellation makes it stop eventually, but it may still enqueue (the `select` in sendMessage is a free
+choice) — the model lets a stale fetcher enqueue any number of its records. -/
+
+structure Fetcher where
+  tag : Nat
+  start : Int
+  sent : Nat := 0
+  deriving Repr
+
+structure FS where
+  version : Nat := 0
+  queue : List (Nat × Rec) := []
+  fetchers : List Fetcher := []
+  accepted : Nat := 0        -- messages FetchMessage has returned since the last SetOffset
+  deriving Repr
+
+inductive FEv
+  | setOffset (o : Int)
+  | enqueue (t : Nat)
+  | fetch
+  deriving Repr
+
+/-- what a fetcher started at `o` sends, in order -/
+def feed (log : List Rec) (o : Int) : List Rec := log.filter (fun r => o ≤ r.1)
+
+def bump (t : Nat) (fs : List Fetcher) : List Fetcher :=
+  fs.map fun g => if g.tag = t then { g with sent := g.sent + 1 } else g
+
+/-- one step; for `fetch` also the message returned (`none` as a whole = the event is not enabled / blocks) -/
+def fstep (log : List Rec) (s : FS) : FEv → Option (FS × Option Rec)
+  | .setOffset o =>
+    some ({ version := s.version + 1, queue := s.queue, fetchers := { tag := s.version + 1, start := o } :: s.fetchers,
+            accepted := 0 }, none)
+  | .enqueue t =>
+    match s.fetchers.find? (fun f => f.tag = t) with
+    | none => none
+    | some f =>
+      match (feed log f.start)[f.sent]? with
+      | none => none
+      | some r => some ({ s with queue := s.queue ++ [(t, r)], fetchers := bump t s.fetchers }, none)
+  | .fetch =>
+    match Front.fetchMessage { version := s.version, queue := s.queue } with
+    | none => none
+    | some (r, f') => some ({ s with queue := f'.queue, accepted := s.accepted + 1 }, some r)
+
+/-- run events, collecting the messages FetchMessage returned -/
+def frun (log : List Rec) : FS → List FEv → Option (FS × List Rec)
+  | s, [] => some (s, [])
+  | s, e :: es =>
+    match fstep log s e with
+    | none => none
+    | some (s', m) =>
+      match frun log s' es with
+      | none => none
+      | some (s'', ms) => some (s'', (match m with | some r => [r] | none => []) ++ ms)
+
+end KV.C02
